@@ -261,6 +261,15 @@ func (e *Env) monitors(f string, req M, r string, before, after map[string]any, 
 			}
 		}
 	}
+	// C20: verified misbehaviour (fork at one height, or a higher header that is not later) must freeze
+	if f == "misb" && r == "updated" {
+		h1, h2 := fM(req, "h1"), fM(req, "h2")
+		fork := fS(h1, "height") == fS(h2, "height") && fS(h1, "blockHash") != fS(h2, "blockHash")
+		timeViolation := fS(h1, "height") != fS(h2, "height") && fI(h1, "ts") <= fI(h2, "ts")
+		if fork || timeViolation {
+			e.viol("C20", "misbehaviour-not-frozen", "verified misbehaviour did not freeze the client", M{"client": fS(req, "cid"), "fork": fork, "timeViolation": timeViolation})
+		}
+	}
 	// C24: acceptance only when verified (ibc-go's own conditions + the library's verdict)
 	if f == "update" && (r == "updated" || r == "frozen") {
 		cid := fS(req, "cid")
